@@ -470,6 +470,9 @@ func runHSx(c hsCfg, toks []string, census bool) string {
 	note := ""
 	flushes := 0
 	send := func(b []byte) { re.Write(b) }
+	// A v2-configured peer talks v1 with a v1 remote only when inbound and the
+	// remote opens with a well-formed version message.
+	speaksV1 := c.transport != "v2dg" || (c.inbound && len(toks) > 0 && strings.HasPrefix(toks[0], "v:"))
 	if c.transport == "v2" {
 		// The remote is btcd's own v2transport endpoint in the opposite role.
 		rp := v2transport.NewPeer()
@@ -541,6 +544,11 @@ func runHSx(c hsCfg, toks []string, census bool) string {
 			send(encMsg(wire.NewMsgPing(n), btcnet))
 		case "F":
 			send(encMsg(wire.NewMsgPing(flushNonce), btcnet))
+			if !speaksV1 {
+				// the peer is inside (or past) a v2 key exchange fed with v1
+				// bytes: nothing will ever answer
+				continue
+			}
 			flushes++
 			want := fmt.Sprintf("pong(%d)", flushNonce)
 			need := flushes
